@@ -11,7 +11,7 @@ RULE = ("one case = one solver configuration (solver, objective family/scale/off
         "A case is non-trivial when the solver made >= 2 objective calls; distinct = distinct configuration")
 ASSUMPTIONS = [
     "objective functions are deterministic, finite, side-effect free; callbacks return new objects",
-    "max_iter >= 1 (max_iter=0 excluded: the statement is about returned results)",
+    "max_iter >= 0 (3 % of the cases of every solver with an iteration loop ask for zero iterations)",
     "tabu cooldown >= 1; evolve population non-empty; bayesian_opt n_initial >= 1 and lo < hi; DE strategies "
     "'x/2' only with populations large enough for four distinct difference vectors",
     "dyadic bounds and start points so that clipping and rng.uniform are exact at the bounds",
@@ -72,6 +72,7 @@ def setup():
 # ------------------------------------------------------------------------------------------ generators
 
 _ITERS = [1, 1, 2, 3, 5, 8, 13, 30, 60, 120, 300]
+_ZERO_ITER_STRATA = ("anneal", "tabu", "lns", "alns", "evolve", "de", "pso", "nelder-mead", "powell", "tsp")
 
 
 def _dy(rng, lo, hi, q=4):
@@ -303,6 +304,10 @@ def gen(stratum, rng, tier):
         c["stop"] = _stop(rng, mi)
     else:
         raise ValueError(stratum)
+    if stratum in _ZERO_ITER_STRATA and rng.random() < 0.03:
+        # an iteration limit of zero: "do not search, give me the start point back" - the relation is the same
+        c["opts"]["max_iter"] = 0
+        c["stop"] = None
     return c
 
 
